@@ -54,6 +54,15 @@ CHECKS = {
             "limit from both directions; both inequalities are theorems, so any excursion is a defect of the truncation.",
             "dense SVD at every cut (prod(d) <= 20000); slack 1e-8",
             "DESIGN.md section 3 / C05"),
+    "C06": ("exploration",
+            "invariant monitors at quiescent points after every public call of a generated history: dense amplitudes "
+            "outside the (shifted) sector, qntot bookkeeping, and the label invariant (every non-zero block of every "
+            "site tensor allowed by the stored bond labels); operator labels vs the charge of the dense operator",
+            "Hostile sectors (all occupied, single-state, next to empty), one/two quantum numbers; constructors, sums, "
+            "canonicalise/compress incl. limit 1 and thresholds, charged operators and their adjoints, MpDm, DMRG 1-/2-site "
+            "with perturbation, one step of every chain evolution scheme in real and imaginary time.",
+            "labels inspected only after a public call returned; prod(d) <= 400",
+            "DESIGN.md section 3 / C06"),
     "C07": ("exploration",
             "reference-model monitor: every observable the real methods return is compared with its definition on the "
             "dense vector; differential monitor fast path vs slow path; counting wrapper proves the cache was used",
